@@ -13,6 +13,114 @@ import (
 type setting struct {
 	Name   string
 	Design []float32
+	// Extra marks the per-axis / axis-pair settings added on top of the tier's base count; on faces
+	// with more than subsetAbove glyphs they are evaluated on a glyph subset (every k-th glyph plus
+	// the composites).
+	Extra bool
+}
+
+const (
+	maxExtraSettings = 24
+	subsetAbove      = 3000
+)
+
+func sameDesign(a, b []float32) bool {
+	if len(a) != len(b) {
+		return false
+	}
+	for i := range a {
+		if a[i] != b[i] {
+			return false
+		}
+	}
+	return true
+}
+
+// axisSettings builds, for a face with at least two axes, the settings that move axes away from the
+// default one at a time and two at a time: EACH axis alone at its minimum and at its maximum (the
+// others at default), and, for faces with at most four axes, each PAIR of axes at every combination
+// of their extremes. At most maxExtraSettings are returned (all singles first; a seeded choice if
+// there are more singles than that; pairs fill what is left, seeded choice). Settings whose
+// coordinates already occur in `have` are left out. These reach multi-axis interactions (a gvar /
+// item-variation region that peaks on several axes must contribute nothing when only one of its
+// axes is moved) that corner and random settings hit only by luck.
+func axisSettings(axes []hbref.Axis, have []setting, rng *ev.Rand) []setting {
+	n := len(axes)
+	if n < 2 {
+		return nil
+	}
+	def := func() []float32 {
+		d := make([]float32, n)
+		for i, a := range axes {
+			d[i] = a.Default
+		}
+		return d
+	}
+	var singles, pairs []setting
+	for i, a := range axes {
+		if a.Min != a.Default {
+			d := def()
+			d[i] = a.Min
+			singles = append(singles, setting{Name: fmt.Sprintf("only-axis%d-min", i), Design: d, Extra: true})
+		}
+		if a.Max != a.Default {
+			d := def()
+			d[i] = a.Max
+			singles = append(singles, setting{Name: fmt.Sprintf("only-axis%d-max", i), Design: d, Extra: true})
+		}
+	}
+	if n <= 4 {
+		ext := func(a hbref.Axis) []float32 {
+			var e []float32
+			if a.Min != a.Default {
+				e = append(e, a.Min)
+			}
+			if a.Max != a.Default {
+				e = append(e, a.Max)
+			}
+			return e
+		}
+		for i := 0; i < n; i++ {
+			for j := i + 1; j < n; j++ {
+				for _, vi := range ext(axes[i]) {
+					for _, vj := range ext(axes[j]) {
+						d := def()
+						d[i], d[j] = vi, vj
+						pairs = append(pairs, setting{Name: fmt.Sprintf("pair-axis%d-axis%d", i, j), Design: d, Extra: true})
+					}
+				}
+			}
+		}
+	}
+	shuffleTrim := func(s []setting, k int) []setting {
+		for len(s) > k {
+			j := rng.Intn(len(s))
+			s = append(s[:j], s[j+1:]...)
+		}
+		return s
+	}
+	singles = shuffleTrim(singles, maxExtraSettings)
+	pairs = shuffleTrim(pairs, maxExtraSettings-len(singles))
+	var out []setting
+	for _, s := range append(singles, pairs...) {
+		dup := false
+		for _, h := range have {
+			if h.Design != nil && sameDesign(h.Design, s.Design) {
+				dup = true
+				break
+			}
+		}
+		for _, h := range out {
+			if sameDesign(h.Design, s.Design) {
+				dup = true
+				break
+			}
+		}
+		if !dup {
+			out = append(out, s)
+		}
+	}
+	return out
 }
 
 func hashStr(s string) uint64 {
@@ -148,7 +256,8 @@ func settingsFor(file string, index int, axes []hbref.Axis, knees [][]float64, s
 		for k := 0; len(out) < want+1; k++ {
 			out = append(out, random(k))
 		}
-		return out[:want+1]
+		out = out[:want+1]
+		return append(out, axisSettings(axes, out, rng)...)
 	}
 	// thorough: every family member, bounded, then random fill
 	var pool []setting
@@ -166,5 +275,5 @@ func settingsFor(file string, index int, axes []hbref.Axis, knees [][]float64, s
 	for k := 0; len(out) < want+1; k++ {
 		out = append(out, random(k))
 	}
-	return out
+	return append(out, axisSettings(axes, out, rng)...)
 }
